@@ -147,6 +147,13 @@ func drawHeaders(c *core.Ctx, label string) []HV {
 			hs = append(hs, HV{name, visible(c, label+".val", 0, 30)})
 		}
 	}
+	if c.Chance(label+".many", 1, 20) {
+		// header maps around the CBOR head-size steps (23/24, 255/256 entries)
+		for i, m := 0, c.PickInt(label+".manyN", 20, 21, 22, 23, 24, 250, 253, 254); i < m; i++ {
+			hs = append(hs, HV{fmt.Sprintf("X-M%03d", i), "m"})
+		}
+		c.Probe("header map with 23-257 fields")
+	}
 	return hs
 }
 
